@@ -862,6 +862,116 @@ def text_level(ctx, H, E):
                                                                          "visible": d.visible, "cells": d.cells, "hidden": d.hidden})
 
 
+# ----------------------------------------------------------------------------- charset decoding in front of the parser
+CHARSET_KEY = "html:charset-sniffed-from-removed-markup"
+
+
+def charset_docs(rng, n_random):
+    """(kind, key, bytes, visible tokens, hidden tokens, marker) - documents whose BYTES matter:
+    truthful encodings (BOMs, <meta charset>, http-equiv) and charset declarations that sit inside removed markup."""
+    out = []
+    sample = {"utf-8": "\u00e9\u65e5", "utf-16-le": "\u00e9\u65e5", "utf-16-be": "\u00e9\u65e5", "latin-1": "\u00e9", "iso-8859-1": "\u00e9",
+              "cp1252": "\u00e9\u20ac", "shift_jis": "\u65e5\u672c", "koi8-r": "\u0416", "utf-32": "\u00e9"}
+
+    def body(marker):
+        return (f"<p>vis1z</p><script>var hid1z = '<p>';</script><p>vis2z {marker}</p><noscript><img src=x>hid2z</noscript>"
+                f"<!-- hid3z --><p>vis3z</p>")
+    # A. truthful
+    for enc, decl in (("utf-8", None), ("utf-8", "bom"), ("utf-16-le", "bom"), ("utf-16-be", "bom"), ("latin-1", "meta"), ("cp1252", "meta"),
+                      ("shift_jis", "meta"), ("utf-8", "meta"), ("koi8-r", "meta"), ("iso-8859-1", "http-equiv"), ("utf-8", "META-upper"),
+                      ("latin-1", "meta-late"), ("cp1252", "meta-unquoted")):
+        marker = "uni1z" + sample[enc]
+        head = {None: "", "bom": "", "meta": f'<meta charset="{enc}">', "meta-unquoted": f"<meta charset={enc}>",
+                "http-equiv": f'<meta http-equiv="Content-Type" content="text/html; charset={enc}">',
+                "META-upper": f"<META CHARSET='{enc.upper()}'>", "meta-late": "<title>" + "t" * 3000 + f'</title><meta name="x" content="y" charset="{enc}">'}[decl]
+        doc = f"<html><head>{head}<title>ttl</title></head><body>{body(marker)}</body></html>"
+        raw = doc.encode(enc)
+        if decl == "bom":
+            raw = {"utf-8": b"\xef\xbb\xbf", "utf-16-le": b"\xff\xfe", "utf-16-be": b"\xfe\xff"}[enc] + raw
+        out.append(("truthful", f"html:charset-truthful:{enc}:{decl}", raw, ["vis1z", "vis2z", "vis3z"], ["hid1z", "hid2z", "hid3z"], marker))
+    # B. a declaration inside removed markup must decide nothing
+    containers = {
+        "comment": "<!-- {m} -->", "comment-multi": "<!--\n old head:\n {m}\n-->", "script-string": "<script>var h = '{m}';</script>",
+        "style-comment": "<style>/* {m} */ p {{}}</style>", "noscript": "<noscript>{m}</noscript>", "object": "<object data=x>{m}</object>",
+        "iframe": '<iframe src="x">{m}</iframe>', "open-comment-at-eof": None,
+    }
+    charsets = ["utf-16", "utf-16le", "utf-16-be", "utf-32", "utf-7", "cp037", "cp500", "latin-1", "cp1252", "shift_jis", "utf-8", "koi8-r",
+                "x-no-such", "UTF-16", "Utf-7"]
+    metas = ['<meta charset="{c}">', "<meta charset={c}>", '<meta http-equiv="Content-Type" content="text/html; charset={c}">', "<META CHARSET='{c}'/>"]
+    marker = "uni1z\u00e9\u65e5"
+    vis_body = (f"<p>vis1z</p><p>vis2z +ADw-script+AD4- +ADw-!-- vis3z</p><script>var hid1z;</script><p>vis4z {marker}</p>"
+                f"<noscript><img src=x>hid2z</noscript><p>vis5z</p>")
+    combos = [(k, c, m) for k in containers if containers[k] for c in charsets for m in metas[:1]]
+    combos += [(rng.choice([k for k in containers if containers[k]]), rng.choice(charsets), rng.choice(metas)) for _ in range(n_random)]
+    for k, c, m in combos:
+        decl = containers[k].format(m=m.format(c=c))
+        where = rng.choice(["head", "bare-start", "body-start"])
+        if where == "head":
+            doc = f"<html><head><title>ttl</title>{decl}</head><body>{vis_body}</body></html>"
+        elif where == "bare-start":
+            doc = decl + vis_body
+        else:
+            doc = f"<html><body>{decl}{vis_body}</body></html>"
+        out.append((f"in-{k}:{c}", CHARSET_KEY, doc.encode("utf-8"), ["vis1z", "vis2z", "vis3z", "vis4z", "vis5z"], ["hid1z", "hid2z"], marker))
+    # beyond the sniffing window a declaration has no effect at all (sanity)
+    doc = "<p>vis1z</p>" + "<!-- pad -->" * 800 + '<!-- <meta charset="utf-16"> -->' + vis_body.replace("vis1z", "vis0z")
+    out.append(("beyond-window", "html:charset-beyond-window", doc.encode("utf-8"), ["vis1z", "vis0z", "vis2z", "vis3z", "vis4z", "vis5z"], ["hid1z", "hid2z"], marker))
+    return out
+
+
+def charset_check(H, mh, E, raw, visible, hidden, marker):
+    """returns [(path, why)] for one byte document through the byte-consuming paths"""
+    bad = []
+    outs = {"read_html": lambda: list(H.read_html(io.BytesIO(raw)))[0].content,
+            "read_mhtml:base64": lambda: list(mh.read_mhtml(io.BytesIO(mhtml_raw(raw))))[0].content}
+    for path, f in outs.items():
+        try:
+            text = f()
+        except Exception as ex:  # noqa
+            bad.append((path, "raised " + repr(ex)[:80]))
+            continue
+        found = TOK.findall(text)
+        if [x for x in found if x.startswith("hid")]:
+            bad.append((path, f"removed content leaked: {[x for x in found if x.startswith('hid')][:3]}"))
+        elif [x for x in found if x.startswith("vis")] != visible:
+            bad.append((path, f"visible text lost or reordered: got {[x for x in found if x.startswith('vis')]} of {visible}"))
+        elif marker not in text:
+            bad.append((path, f"visible non-ASCII text {marker!r} mis-decoded"))
+    return bad
+
+
+def mhtml_raw(raw):
+    b = b"----=_NextPart_000_0001"
+    return (b"From: <Saved by verif>\r\nMIME-Version: 1.0\r\nContent-Type: multipart/related;\r\n\tboundary=\"" + b +
+            b"\"\r\n\r\n--" + b + b"\r\nContent-Type: text/html\r\nContent-Transfer-Encoding: base64\r\n"
+            b"Content-Location: http://e/index.html\r\n\r\n" + base64.encodebytes(raw) + b"\r\n--" + b + b"--\r\n")
+
+
+def charset_level(ctx, H, E):
+    import importlib
+    mh = importlib.import_module("sharepoint2text.parsing.extractors.mhtml_extractor")
+    fails = ctx.extra.setdefault("oracle_failures", {})
+    for kind, key, raw, visible, hidden, marker in charset_docs(ctx.rng, ctx.n(60, 600)):
+        ctx.case(("charset", kind, raw), True, kind="charset:" + kind.split(":")[0])
+        bad = charset_check(H, mh, E, raw, visible, hidden, marker)
+        for path, why in bad:
+            fails["charset:" + path] = fails.get("charset:" + path, 0) + 1
+            ctx.finding(key, f"{path}: {why} for a {kind} document {raw[:90]!r}...",
+                        {"path": path, "doc_bytes": raw, "doc_b64": base64.b64encode(raw).decode(), "visible": visible, "hidden": hidden,
+                         "marker": marker, "why": why})
+        # the same text as an EPUB chapter / MSG body is decoded elsewhere (UTF-8 / already str): the declaration is irrelevant there
+        if kind.startswith("in-"):
+            doc = raw.decode("utf-8")
+            try:
+                ch = list(E.read_epub(io.BytesIO(epub_bytes(doc))))[0].chapters[0].text
+            except Exception as ex:  # noqa
+                ch = "hid:" + repr(ex)
+            f = TOK.findall(ch)
+            if [x for x in f if x.startswith("hid")] or [x for x in f if x.startswith("vis")] != visible or marker not in ch:
+                ctx.finding("epub:charset-declaration-in-removed-markup", f"read_epub:chapter: a {kind} declaration changes the chapter text",
+                            {"path": "read_epub:chapter", "html_body": doc, "visible": visible, "hidden": hidden})
+
+
 # ----------------------------------------------------------------------------- chapters are independent
 HAZARDS = {
     # how a chapter may END: (kind, markup appended to the body; the document is then truncated)
@@ -1060,6 +1170,10 @@ def recording(cls, registry=None):
             if registry is not None:
                 registry.append(self)
 
+        def feed(self, data):
+            self.fed = getattr(self, "fed", "") + data
+            return super().feed(data)
+
         def handle_starttag(self, tag, attrs):
             self.events.append(("S", tag, tuple(attrs)))
             super().handle_starttag(tag, attrs)
@@ -1155,33 +1269,47 @@ def protocol_correspondence(ctx, H, E):
             tl = rng.choice(EOF_TAILS[rng.choice(sorted(EOF_TAILS))]) % d.hid()
             doc = (doc[:doc.rindex("</body>")] if "</body>" in doc else doc + "\n") + tl
         docs.append(doc)
+    mh = importlib.import_module("sharepoint2text.parsing.extractors.mhtml_extractor")
     bad = []
+    nsites = 0
     for doc in docs:
-        want = ref_stream(doc)
         sites = []
-        reg = []
-        with mock.patch.object(H, "_HtmlTreeBuilder", recording(H._HtmlTreeBuilder, reg)):
-            list(H.read_html(io.BytesIO(doc.encode("utf-8"))))
-        sites.append(("read_html", reg))
-        reg = []
-        with mock.patch.object(M, "_HtmlTreeBuilder", recording(H._HtmlTreeBuilder, reg)):
-            M._html_to_text(doc)
-        sites.append(("msg:_html_to_text", reg))
-        reg = []
-        with mock.patch.object(E, "_XhtmlTextExtractor", recording(E._XhtmlTextExtractor, reg)):
-            list(E.read_epub(io.BytesIO(epub_bytes(doc))))
-        sites.append(("read_epub:chapter", reg))
-        for site, reg in sites:
-            ctx.case(("protocol", site, doc), True, kind="protocol")
-            if len(reg) != 1:
-                bad.append((site, doc, f"{len(reg)} handler objects constructed"))
-            elif merged(reg[0].events) != want:
-                got = merged(reg[0].events)
+
+        def site(name, mod, cls, attr, call):
+            reg = []
+            with mock.patch.object(mod, attr, recording(cls, reg)):
+                try:
+                    call()
+                except Exception as ex:  # noqa
+                    reg.append(ex)
+            sites.append((name, reg))
+        site("read_html", H, H._HtmlTreeBuilder, "_HtmlTreeBuilder", lambda: list(H.read_html(io.BytesIO(doc.encode("utf-8")))))
+        for cte in ("quoted-printable", "base64", "8bit"):
+            site(f"read_mhtml:{cte}", H, H._HtmlTreeBuilder, "_HtmlTreeBuilder",
+                 lambda: list(mh.read_mhtml(io.BytesIO(mhtml_bytes(doc, cte)))))
+        site("msg:_html_to_text", M, H._HtmlTreeBuilder, "_HtmlTreeBuilder", lambda: M._html_to_text(doc))
+        if M._looks_like_html(doc):
+            site("read_msg:body", M, H._HtmlTreeBuilder, "_HtmlTreeBuilder", lambda: msg_body_plain(M, doc))
+        site("read_epub:chapter", E, E._XhtmlTextExtractor, "_XhtmlTextExtractor", lambda: list(E.read_epub(io.BytesIO(epub_bytes(doc)))))
+        for name, reg in sites:
+            nsites += 1
+            ctx.case(("protocol", name, doc), True, kind="protocol")
+            if len(reg) != 1 or isinstance(reg[0], Exception):
+                bad.append((name, doc, f"{len(reg)} handler objects constructed / {reg[-1:]!r}"))
+                continue
+            fed = getattr(reg[0], "fed", None)
+            if fed is None or fed.rstrip() != doc.rstrip():
+                bad.append((name, doc, f"the text fed to the parser is not the document: {fed!r:.200}"))
+                continue
+            want = ref_stream(fed)
+            got = merged(reg[0].events)
+            if got != want:
                 i = next((k for k in range(min(len(got), len(want))) if got[k] != want[k]), min(len(got), len(want)))
-                bad.append((site, doc, f"event {i}: delivered {got[i:i + 2]!r}, default feed() gives {want[i:i + 2]!r}"))
-    ctx.traces += 3 * len(docs)
-    ctx.obligation("protocol:real call sites deliver exactly html.parser's default feed(document) event stream to the handlers",
-                   not bad, (f"{len(bad)} of {3 * len(docs)}; first: {bad[0] if bad else ''!r}")[:1200])
+                bad.append((name, doc, f"event {i}: delivered {got[i:i + 2]!r}, default feed() gives {want[i:i + 2]!r}"))
+    ctx.traces += nsites
+    ctx.obligation("protocol:real call sites (read_html, read_mhtml x3 encodings, msg _html_to_text, read_msg body, read_epub chapter) feed the "
+                   "document text unchanged, once, to one handler and deliver exactly html.parser's default feed() event stream",
+                   not bad, (f"{len(bad)} of {nsites}; first: {bad[0] if bad else ''!r}")[:1200])
 
 
 # ----------------------------------------------------------------------------- replay
@@ -1200,6 +1328,13 @@ def replay(ctx, rp):
         ctx.case(("replay", a), True, kind="replay")
         if obs(drive(cls, a)) != obs(drive(cls, b)):
             ctx.finding(key, rp.get("what", "state differs"), {"machine": rp.get("machine"), "events": a, "without": b})
+    elif "doc_b64" in rp:
+        mh = importlib.import_module("sharepoint2text.parsing.extractors.mhtml_extractor")
+        raw = base64.b64decode(rp["doc_b64"])
+        ctx.case(("replay", raw), True, kind="replay")
+        for path, why in charset_check(H, mh, E, raw, rp.get("visible", []), rp.get("hidden", []), rp.get("marker", "")):
+            ctx.finding(key, f"{path}: {why}", {"path": path, "doc_b64": rp["doc_b64"], "visible": rp.get("visible"), "hidden": rp.get("hidden"),
+                                               "marker": rp.get("marker"), "why": why})
     elif "chapters" in rp:
         ctx.case(("replay", tuple(rp["chapters"])), True, kind="replay")
         bad = book_failures(E, rp["chapters"])
@@ -1231,6 +1366,54 @@ def replay(ctx, rp):
 
 
 # ----------------------------------------------------------------------------- X-fact: who uses the builder
+def table_inventory(ctx, H, E):
+    """The tag tables the model is parametric in are the ones the code uses, everywhere it uses them (fail closed)."""
+    import ast
+    import importlib
+    from common import REPO, COQ
+    M = importlib.import_module("sharepoint2text.parsing.extractors.mail.msg_email_extractor")
+    mh = importlib.import_module("sharepoint2text.parsing.extractors.mhtml_extractor")
+    # one builder class / one read_html behind HTML, MHTML and MSG
+    ctx.obligation("inventory:MSG body and MHTML use html_extractor's own builder, renderer and read_html (same objects)",
+                   M._HtmlTreeBuilder is H._HtmlTreeBuilder and M._HtmlTextExtractor is H._HtmlTextExtractor and mh.read_html is H.read_html
+                   and not hasattr(M, "REMOVE_TAGS") and not hasattr(mh, "REMOVE_TAGS"), "")
+    # the generated Coq tables are today's live sets
+    gen = (COQ / "Gen" / "C17Tables.v").read_text()
+
+    def coq_set(name):
+        m = re.search(r"Definition %s : list str := \[(.*?)\]\." % name, gen, re.S)
+        return set(re.findall(r'\(s "([^"]*)"\)', m.group(1))) if m else None
+    live = {"html_remove": set(H.REMOVE_TAGS), "html_void": set(H._VOID_TAGS), "epub_remove": set(E.REMOVE_TAGS),
+            "epub_void": set(getattr(E, "_VOID_REMOVE_TAGS", ())), "epub_block": set(E.BLOCK_TAGS), "html_block": set(H.BLOCK_TAGS)}
+    diff = {k: (sorted(v), sorted(coq_set(k) or [])) for k, v in live.items() if coq_set(k) != v}
+    ctx.obligation("inventory:Gen/C17Tables.v tables == live REMOVE_TAGS/_VOID_TAGS/_VOID_REMOVE_TAGS/BLOCK_TAGS of both modules", not diff, str(diff)[:600])
+    # where the tables are read: only the modelled handlers (+ the renderer's dead REMOVE_TAGS branch, see C17_html_tree_has_no_removable_node)
+    allowed = {"html_extractor.py": {("REMOVE_TAGS", "<module>"), ("_VOID_TAGS", "<module>"), ("REMOVE_TAGS", "_HtmlTreeBuilder.handle_starttag"),
+                                     ("_VOID_TAGS", "_HtmlTreeBuilder.handle_starttag"), ("REMOVE_TAGS", "_HtmlTextExtractor._process_node")},
+               "epub_extractor.py": {("REMOVE_TAGS", "<module>"), ("_VOID_REMOVE_TAGS", "<module>"),
+                                     ("REMOVE_TAGS", "_XhtmlTextExtractor.handle_starttag"), ("_VOID_REMOVE_TAGS", "_XhtmlTextExtractor.handle_starttag")},
+               "mhtml_extractor.py": set(), "mail/msg_email_extractor.py": set()}
+    base = REPO / "sharepoint2text" / "parsing" / "extractors"
+    problems = []
+    for rel, want in allowed.items():
+        tree = ast.parse((base / rel).read_text(encoding="utf-8"))
+        got = set()
+
+        def visit(node, scope):
+            for ch in ast.iter_child_nodes(node):
+                if isinstance(ch, (ast.FunctionDef, ast.AsyncFunctionDef, ast.ClassDef)):
+                    visit(ch, (scope + "." if scope != "<module>" else "") + ch.name)
+                else:
+                    if isinstance(ch, ast.Name) and ch.id in ("REMOVE_TAGS", "_VOID_TAGS", "_VOID_REMOVE_TAGS"):
+                        got.add((ch.id, scope))
+                    visit(ch, scope)
+        visit(tree, "<module>")
+        if got != want:
+            problems.append(f"{rel}: unexpected {sorted(got - want)} missing {sorted(want - got)}")
+    ctx.obligation("inventory:REMOVE_TAGS/_VOID_TAGS/_VOID_REMOVE_TAGS are read only by the modelled handlers (and _process_node)",
+                   not problems, "; ".join(problems)[:800])
+
+
 def reuse_facts(ctx):
     import ast
     from common import REPO
@@ -1317,13 +1500,39 @@ def tokenizer_facts(ctx, H, E):
                     okv = (isinstance(v, ast.Call) and isinstance(v.func, ast.Attribute) and v.func.attr in ("decode", "read_text"))
                     if not okv:
                         problems.append(f"{rel}:{fn.name}:{a.lineno}: {var} is rewritten before feed(): {ast.unparse(a)[:80]}")
-                # nothing that rewrites text runs before the feed in this function
-                for call in ast.walk(fn):
-                    if isinstance(call, ast.Call) and call.lineno <= c.lineno:
-                        f = call.func
-                        nm = f.attr if isinstance(f, ast.Attribute) else getattr(f, "id", "")
-                        if nm in REWRITE or (isinstance(f, ast.Attribute) and isinstance(f.value, ast.Name) and f.value.id == "re"):
-                            problems.append(f"{rel}:{fn.name}:{call.lineno}: text rewriting call before feed(): {ast.unparse(call)[:80]}")
+                # backward slice of the fed text (receivers of method calls, operands of other expressions): nothing in it
+                # may rewrite text; the choice of the encoding (an ARGUMENT of decode) is not part of the slice
+                def primary_names(e):
+                    if isinstance(e, ast.Call):
+                        if isinstance(e.func, ast.Attribute):
+                            return primary_names(e.func.value)
+                        return [n for a in e.args for n in primary_names(a)]
+                    if isinstance(e, ast.Name):
+                        return [e.id]
+                    return [n for ch in ast.iter_child_nodes(e) for n in primary_names(ch)]
+
+                def rewriting_calls(e):
+                    out = []
+                    for call in ast.walk(e):
+                        if isinstance(call, ast.Call):
+                            f = call.func
+                            nm = f.attr if isinstance(f, ast.Attribute) else getattr(f, "id", "")
+                            if nm in REWRITE or (isinstance(f, ast.Attribute) and isinstance(f.value, ast.Name) and f.value.id == "re"):
+                                out.append(call)
+                    return out
+                seen, todo = set(), [var]
+                while todo:
+                    v = todo.pop()
+                    if v in seen:
+                        continue
+                    seen.add(v)
+                    for a in ast.walk(fn):
+                        tg = (a.targets if isinstance(a, ast.Assign) else [a.target] if isinstance(a, (ast.AugAssign, ast.AnnAssign)) else [])
+                        if any(isinstance(x, ast.Name) and x.id == v for x in tg) and getattr(a, "value", None) is not None \
+                                and a.lineno <= c.lineno:
+                            for call in rewriting_calls(a.value):
+                                problems.append(f"{rel}:{fn.name}:{call.lineno}: the fed text is rewritten before feed(): {ast.unparse(call)[:80]}")
+                            todo += primary_names(a.value)
         # MHTML: the only rewriting of the extracted HTML bytes is base64 whitespace removal (allow-listed)
         if rel == "mhtml_extractor.py":
             for call in ast.walk(tree):
@@ -1363,15 +1572,18 @@ def run(ctx):
         "C17_epub_noninterference", "C17_epub_outputs_equal", "C17_epub_void_removable", "C17_epub_comment_inert"])
     ctx.prove("C17/Inst.v", ["Gen/C17Tables.vo", "C17/Corr.vo", "C17/Proofs.vo"], expected=[
         "C17_html_tables_wf", "C17_epub_tables_wf", "C17_statement_tags_removed",
-        "C17_html_void_matches_standard", "C17_epub_void_matches_standard", "C17_hypotheses_satisfiable"])
+        "C17_html_void_matches_standard", "C17_epub_void_matches_standard", "C17_hypotheses_satisfiable",
+        "C17_remove_sets_agree"])
 
     reuse_facts(ctx)
+    table_inventory(ctx, H, E)
     tokenizer_facts(ctx, H, E)
     event_correspondence(ctx, H, E)
     feed_correspondence(ctx, H, E)
     protocol_correspondence(ctx, H, E)
     event_oracle(ctx, H, E)
     text_level(ctx, H, E)
+    charset_level(ctx, H, E)
     chapters_independent(ctx, H, E)
 
 
